@@ -236,6 +236,8 @@ def gen_cases(seed, tier):
         "new 0 vec;set 0 H:0 -2147483648;muli 0 1 mut;get 0 H:0;mul 1 0 1 ref;get 1 H:0;set 0 H:0 2147483647;neg 2 0 ref;get 2 H:0;muli 0 -1 own;get 0 H:0",
         "new 0 vec;new 1 vec;set 0 H:0 -1073741824;set 1 H:0 -1073741824;add 2 0 1 ref;get 2 H:0;set 1 H:0 1073741824;subi 0 1 own;get 0 H:0;"
         "inc 0 H:0 2147483647;get 0 H:0;inc 0 H:0 2147483647;get 0 H:0;iadd 0 H:0 1;get 0 H:0;fmass 0",
+        # D32 (known finding): pair lists whose running total for a key leaves i32 while the total fits
+        "new 0 vec;fromkv 0 vec iterES H:0=2147483647,H:0=1,H:0=-5;get 0 H:0",
         # D31 (fixed): subtracting a count of i32::MIN where the difference fits (the code added the negated count)
         "new 0 vec;new 1 vec;set 0 H:0 -5;set 1 H:0 -2147483648;sub 2 0 1 ref;get 2 H:0;sub 2 0 1 val;get 2 H:0;subi 0 1 own;get 0 H:0;set 0 H:0 -1;subi 0 1 mut;get 0 H:0",
         "new 0 vec;set 0 H:0 -715827882;muli 0 3 own;get 0 H:0;set 0 H:0 -536870912;muli 0 4 mut;get 0 H:0;set 0 H:0 65536;mul 1 0 -32768 ref;get 1 H:0",
@@ -441,6 +443,18 @@ def case_line(c, impl=False):
 MUTATORS_C04 = {"add", "sub", "addi", "subi", "mul", "muli", "neg", "fromkv"}
 
 
+def partial_sum_leaves_i32(pairs):
+    """does the running total of some key leave i32 while every key's total fits?"""
+    run, bad = {}, False
+    for kv in pairs.split(","):
+        if "=" not in kv:
+            continue
+        k, v = kv.rsplit("=", 1)
+        run[k] = run.get(k, 0) + int(v)
+        bad |= not (-2 ** 31 <= run[k] < 2 ** 31)
+    return bad and all(-2 ** 31 <= t < 2 ** 31 for t in run.values())
+
+
 def split_step(s):
     """'read#reg#reg' -> (read, [reg fields])"""
     parts = s.split("#")
@@ -459,6 +473,10 @@ def compare_case(c, impl_line, model_line):
     for idx, (op, si, sm) in enumerate(zip(c["ops"], isteps, msteps)):
         w = op.split()
         if sm == "panic" or si == "panic":
+            if sm != si and si == "panic" and w[0] == "fromkv" and partial_sum_leaves_i32(w[4]):
+                # D32 (known finding): the constructors add the listed counts one by one in i32
+                issues.append(("C04", "partial-sum-overflow", idx, f"op {op}: the running total of a key leaves i32 although its total fits; the constructor panics"))
+                break
             if sm != si:
                 # a panic of the real code where the model has none: which property depends on the op
                 prop = "C06" if w[0] in ("gets", "sidx", "get", "idx", "eq") else "C04"
